@@ -2,7 +2,7 @@ SPECIFICATION QSpec
 CONSTANTS
   Readers = {1, 2, 3}
   KeySet = {1, 2}
-  Sizes = {1, 3}
+  Sizes = {2, 3}
   MAX = 2
   PAR = 2
   NCALLS = 1
